@@ -6,6 +6,7 @@ import cardgen as G
 WEIGHTS = {"add": 30, "vis": 16, "fold": 16, "plot": 7, "table": 7, "metrics": 4, "hyper": 2, "modelplot": 3, "delete": 6, "dellist": 2,
            "select": 3, "chain": 3, "title": 9}
 MODE = {"toc": True, "render": True, "save": True, "nodes": True, "format": True}
+INIT = {"none": 45, "skops": 25, "custom": 27, "nosuch": 2, "clash": 1}
 
 CORPUS = [
     # D14 (repaired): folded parent with children
@@ -15,19 +16,29 @@ CORPUS = [
     [["add", False, [["Model", "m"], ["Model/Results", "r"], ["Contact", "c"]]], ["title", ["Model/Results"], "Evaluation results"],
      ["title", ["Contact"], "Authors & contact"], ["fold", ["Model"], True], ["title", ["Model"], "Model/Results"], ["fold", ["Model"], False],
      ["add", False, [["Model/Results/Deep", "d"]]], ["select", "Model/Results"], ["delete", "Contact"]],
+    # the default card (skops template, diagram "auto"): hide / fold template sections, the folded hyperparameter table
+    [["init", "skops", "auto", [["C", 1.0], ["tol", "a\nb"]], '<div class="sk-top-container">\n <pre>A()</pre>\n</div>'],
+     ["fold", ["Model description/Training Procedure"], True], ["vis", ["Model description/Training Procedure/Hyperparameters"], False],
+     ["fold", ["Model description/Training Procedure"], False], ["vis", ["Model description"], False], ["vis", ["Citation"], False],
+     ["vis", ["Model description"], True], ["fold", ["Model description", "Training Procedure/Hyperparameters"], False]],
+    # a custom template whose diagram section is a template section with children
+    [["init", {"map": [["A", "a"], ["A/B", "b"], ["A/B/C", "c"], ["D", ""]]}, "A/B", [], "<p>\n\t</p>"],
+     ["fold", ["A"], True], ["vis", ["A/B"], False], ["fold", ["A"], False], ["title", ["A/B"], "Diagram"]],
 ]
 
 
 def run(R):
-    R.assumptions += ["cards are reached from Card(model, template=None) through the public API and select(...).visible/.folded assignments",
+    R.assumptions += ["cards are reached from Card(model, template=None | str | dict of str -> str, model_diagram=bool | str) (model object, not a path) "
+                      "through the public API and select(...).visible/.folded assignments",
                       "save is observed with copy_files=False; the file is written under the run's build directory"]
     R.notes["rule"] = ("seeded random edit histories biased towards visible/folded assignments (also through chained select) over "
-                       "nested sections of all three kinds; after every operation get_toc(), render(), the bytes written by save(path) "
+                       "nested sections of all three kinds, starting from constructed cards (no template / skops template / custom dict / failing constructors); "
+                       "after the constructor and after every operation get_toc(), render(), the bytes written by save(path) "
                        "and every node's format() are compared with the model; non-trivial = at least one operation succeeded")
     R.notes["guards"] = ["C10_render_spec / C10_hidden_absent: dict keys unique (wf_dict), an invariant of every reachable card (C10_reachable_wf)"]
     R.notes["not_modelled"] = ["PrettyTable layout (oracle)", "shutil.copy of plot files with copy_files=True (modelled as the list of copied paths only)",
                                "text-mode newline translation on non-POSIX platforms"]
-    G.run_property(R, "C10", WEIGHTS, MODE, 14, 400, 4000, corpus=CORPUS)
+    G.run_property(R, "C10", WEIGHTS, MODE, 14, 400, 4000, corpus=CORPUS, init_weights=INIT)
 
 
 def replay(R, rep):
